@@ -6,7 +6,12 @@ usage: python c05_driver.py CASES.json OUT.json        (must be a script: multip
 A case fixes two filesets (files = name-derived coverage in whole seconds + the points stored in the
 file: time in microseconds, lat, lon, a unique point id), max_interval (whole seconds), max_distance
 (km), an optional period, the number of processes, the bundle mode, the output kind (memory / a
-Collocations fileset), at most one unreadable file, skip_file_errors and seeded reader delays.
+Collocations fileset), at most one unreadable file, skip_file_errors, seeded reader delays and -- for output to
+memory -- an optional `consumer_sleep`: the caller spends that many seconds on every yielded dataset before it asks
+for the next one (a slow consumer: the workers go on, fill the bounded result queue and exit meanwhile), and an
+optional `poll_sleep`: the parent is held up that many seconds every time `results.empty()` has answered True (a
+slow poll: a worker hands over its last results and ends between the parent's last look into the queue and the
+snapshot that finds nobody alive).  Both only perturb the schedule, like the reader delays.
 
 Observed per case:
   * sets:  one entry per emitted collocation set (a yielded dataset, or a file of the output fileset read
@@ -40,6 +45,7 @@ OUT_TEMPLATE = ("{year}{month}{day}T{hour}{minute}{second}-"
 # state inherited by the forked workers
 BAD = set()          # paths that cannot be read
 DELAYS = {}          # path -> seconds slept in the reader
+POLL_SLEEP = [0.0]   # seconds the parent is held up after results.empty() answered True
 LOG_FD = None
 
 
@@ -142,6 +148,8 @@ class LoggingQueue(multiprocessing.queues.Queue):
         r = super().empty()
         if self._verif_tag == 0:
             plog(f"E {int(bool(r))}")
+            if r and POLL_SLEEP[0]:
+                time.sleep(POLL_SLEEP[0])        # ... and only now the parent goes on to its snapshot
         return r
 
 
@@ -239,6 +247,7 @@ def run_case(case):
         fb, pb = build_fileset(root, "B", case["B"])
         BAD.clear()
         DELAYS.clear()
+        POLL_SLEEP[0] = float(case.get("poll_sleep") or 0)
         if case.get("bad"):
             which, k = case["bad"]
             BAD.add((pa if which == "A" else pb)[k])
@@ -257,12 +266,15 @@ def run_case(case):
         out = None
         try:
             if case["output"] == "memory":
+                pause = float(case.get("consumer_sleep") or 0)
                 for item in Collocator().collocate_filesets([fa, fb], **kwargs):
                     if isinstance(item, type):
                         obs["sets"].append({"crashed": item.__name__})
                         continue
                     data, attrs = item
                     obs["sets"].append(describe(data))
+                    if pause:
+                        time.sleep(pause)        # the generator is suspended at its `yield` meanwhile
             else:
                 out = Collocations(path=os.path.join(root, "out", OUT_TEMPLATE), name="out", read_mode="compact",
                                    handler=FileHandler(reader=reader, writer=writer))
@@ -277,6 +289,7 @@ def run_case(case):
         except Exception as e:  # noqa
             obs["error"] = f"{type(e).__name__}: {str(e)[:200]}"
         finally:
+            POLL_SLEEP[0] = 0.0
             pflush()
             os.close(LOG_FD)
             LOG_FD = None
